@@ -271,6 +271,17 @@ func (e *Exec) register(kind string, inc incr.Incr[int], inode incr.INode, scope
 	return ref
 }
 
+// unusedNode records that the storage behind a node the harness does not track is in use: a
+// handle of an earlier node that shared it is from now on an alias.
+func (e *Exec) unusedNode(n incr.INode) {
+	e.mu.Lock()
+	if old, ok := e.byPtr[n.Node()]; ok {
+		e.Nodes[old].Recycled = true
+		delete(e.byPtr, n.Node())
+	}
+	e.mu.Unlock()
+}
+
 // invoke performs the plan's actions for (node, which); the returned error / panic is the fault.
 func (e *Exec) invoke(node int, which string) error {
 	if e.Par > 1 {
@@ -375,6 +386,14 @@ func (e *Exec) newBindWith(memo bool, scope incr.Scope, sid, gen int, cases []*T
 			scopeID, g = sid, gen
 		}
 		root := e.inst(bs, scopeID, g, x, cases[norm3(x, len(cases))])
+		if !memo {
+			// a branch the function builds and does not return: two nodes created in the scope
+			// and never linked. They never enter the graph (the model does not know them), but
+			// they take part in the scope's bookkeeping (node lists, storage slots).
+			spare := incr.Return(bs, x)
+			e.unusedNode(spare)
+			e.unusedNode(incr.Map(bs, spare, func(v int) int { return v }))
+		}
 		br.Gen++
 		if root == nil {
 			e.emit(Event{K: "EvBindFn", N: b, R: x, Root: -1})
